@@ -335,6 +335,14 @@ int32_t jls_twr_signal_def(struct jls_twr_s * self, const struct jls_signal_def_
 
 int32_t jls_twr_user_data(struct jls_twr_s * self, uint16_t chunk_meta,
                           enum jls_storage_type_e storage_type, const uint8_t * data, uint32_t data_size) {
+    if ((JLS_STORAGE_TYPE_STRING == storage_type) || (JLS_STORAGE_TYPE_JSON == storage_type)) {
+        if (NULL == data) {
+            return JLS_ERROR_PARAMETER_INVALID;
+        }
+        data_size = (uint32_t) strlen((const char *) data) + 1;  // as jls_wr_user_data: data_size ignored for strings
+    } else if (data_size && (NULL == data)) {
+        return JLS_ERROR_PARAMETER_INVALID;
+    }
     struct msg_header_s hdr = {
             .msg_type = MSG_USER_DATA,
             .h = {
@@ -405,6 +413,14 @@ int32_t jls_twr_annotation(struct jls_twr_s * self, uint16_t signal_id, int64_t 
                            uint8_t group_id,
                            enum jls_storage_type_e storage_type,
                            const uint8_t * data, uint32_t data_size) {
+    if ((JLS_STORAGE_TYPE_STRING == storage_type) || (JLS_STORAGE_TYPE_JSON == storage_type)) {
+        if (NULL == data) {
+            return JLS_ERROR_PARAMETER_INVALID;
+        }
+        data_size = (uint32_t) strlen((const char *) data) + 1;  // as jls_wr_annotation: data_size ignored for strings
+    } else if (data_size && (NULL == data)) {
+        return JLS_ERROR_PARAMETER_INVALID;
+    }
     struct msg_header_s hdr = {
             .msg_type = MSG_ANNOTATION,
             .h = {
